@@ -16,6 +16,8 @@ from ..tables import rule
 from . import analysis
 
 rule("C13.d", "periodic merge: costs and matrix columns of joined variables are summed (value preserving); only bounds may be averaged", floor=2)
+rule("C13.g", "periodic merge: a group of variables is joined once, although the loop visits mapping rows and a variable can have several "
+              "rows (transport: one per node) - accumulating updates are protected by a visited set", floor=1)
 rule("C13.f", "a scipy sparse matrix is subscripted only in a format that supports it (lil / csr / csc; item assignment: lil)", floor=20,
      props=["C13", "C07"])
 rule("C15.d", "inside the fix-window branch only the bounds l and u are written", floor=1)
@@ -89,7 +91,7 @@ class _Fmt(Domain):
         return s
 
 
-@analysis("sparsefmt", ["C13.d", "C13.f", "C15.d", "C04.c"])
+@analysis("sparsefmt", ["C13.d", "C13.f", "C13.g", "C15.d", "C04.c"])
 def run(ctx):
     p = ctx.p
     # ================================================================= C13.f
@@ -176,6 +178,60 @@ def run(ctx):
                        "the %s of joined variables are aggregated with %s: the leading variable stands for all of them, so their %s must be "
                        "*summed* - anything else changes the value of the periodic problem" % (what, sorted(set(calls)), what), node=st)
     ctx.require(n_d >= 2, "aggregation of costs / columns in the periodic merge not found")
+
+    # ================================================================= C13.g
+    aggs = []
+    for st in au.walk_stmts(mp.body):
+        if isinstance(st, (ast.Assign, ast.AugAssign)):
+            t = au.stmt_targets(st)[0]
+            if isinstance(t, ast.Subscript) and au.path(t.value) in ("self.c", "self.A", "self.l", "self.u"):
+                reads_self = any(isinstance(x, ast.Subscript) and au.path(x.value) == au.path(t.value) for x in au.walk_local(st.value)) \
+                    or isinstance(st, ast.AugAssign)
+                if reads_self and any(isinstance(a, ast.For) for a in ctx.p.ancestors(st)):
+                    aggs.append(st)
+    if not aggs:
+        ctx.ob("C13.g", mp, "accumulating updates of the merge", None, "no accumulating update of c / A found inside the merge loop")
+    else:
+        org = ctx.origins(mp)
+        first = min(aggs, key=lambda s: s.lineno)
+        # where do the labels come from?
+        t = au.stmt_targets(first)[0]
+        lab_nodes = org.nodes(t.slice, first)
+        masks = [x for x in lab_nodes if isinstance(x, ast.Subscript) and isinstance(x.value, ast.Attribute) and x.value.attr == "index"
+                 and "mapping" in au.U(x.value)]
+        cols = {au.const_str(y.slice) for x in lab_nodes for y in au.walk_local(x) if isinstance(y, ast.Subscript) and au.const_str(y.slice)}
+        dedup = any(isinstance(x, ast.Call) and au.method_name(x) in ("unique", "drop_duplicates", "duplicated") for m in masks for x in au.walk_local(m)) or \
+            any(isinstance(x, ast.Call) and au.method_name(x) in ("unique", "drop_duplicates") and any(m is y for m in masks for y in ast.walk(x)) for x in lab_nodes)
+        # visited guard: `if <label> in <S>: continue` before the update in an enclosing block of the innermost loop,
+        # or the update nested under `if <label> not in <S>`, with S.add(..) / S.update(..) in the loop
+        guard = None
+        loops = [a for a in ctx.p.ancestors(first) if isinstance(a, ast.For)]
+        inner = loops[0] if loops else None
+        grown = {au.base_name(x.func) for x in au.walk_local(inner) if isinstance(x, ast.Call) and au.method_name(x) in ("add", "update", "append", "extend")
+                 and isinstance(x.func, ast.Attribute)} if inner is not None else set()
+        if inner is not None:
+            for s2 in au.walk_stmts(inner.body):
+                if not isinstance(s2, ast.If) or s2.lineno > first.lineno:
+                    continue
+                for c in au.walk_local(s2.test):
+                    if isinstance(c, ast.Compare) and len(c.ops) == 1 and isinstance(c.ops[0], (ast.In, ast.NotIn)) and isinstance(c.comparators[0], ast.Name) \
+                            and c.comparators[0].id in grown:
+                        is_in = isinstance(c.ops[0], ast.In)
+                        skips = any(isinstance(x, (ast.Continue, ast.Break)) for x in au.walk_stmts(s2.body))
+                        contains = any(first is x for x in au.walk_stmts(s2.body))
+                        if (is_in and skips and not contains) or (not is_in and contains):
+                            guard = s2
+        if guard is not None or dedup and "node" not in cols:
+            ctx.ob("C13.g", mp, "each group of variables is joined once", True, node=first,
+                   ok_detail=("visited set: %s" % au.short(guard.test, 50)) if guard is not None else "labels de-duplicated, rows not grouped by node")
+        elif masks and "node" in cols:
+            ctx.ob("C13.g", mp, "each group of variables is joined once", False,
+                   "the merge loop groups mapping *rows* by %s and takes the variables of a group from the row labels; a variable with one row "
+                   "per node (Transport, ExtendedTransport) is visited once per node, and the accumulating updates (%s ...) are applied "
+                   "again: its cost becomes c0 + 2 c1 and its restriction columns double - a periodic transport with costs_const=1 over "
+                   "two days has total cost 72 instead of 48" % (sorted(c for c in cols if c), au.short(first, 50)), node=first)
+        else:
+            ctx.ob("C13.g", mp, "each group of variables is joined once", None, "origin of the labels of the joined variables not recognised", node=first)
 
     # ================================================================= C15.d
     pf = p.fn_opt("Portfolio.setup_optim_problem")
